@@ -490,10 +490,9 @@ fn parse_case(line: &str) -> Option<Case> {
     if tag != "b" || a.len() != 4 {
         return None;
     }
+    // (capacity 0 is legal — `bounded(0)` — and inside C06's "all capacities": every plain send finds the queue "full",
+    // counts a truncation of nothing and keeps its item; C09's bound is stated for capacities ≥ 1)
     let cap = a[0].as_usize()?;
-    if cap == 0 {
-        return None; // the properties quantify over capacities >= 1
-    }
     let (t, sp) = a[1].as_tagged()?;
     if t != "sp" {
         return None;
@@ -1311,7 +1310,9 @@ impl World {
         }
         let after = sample(&self.core.borrow().metrics);
         let (q, t, b) = (after("queue_length"), after("queue_full_truncated"), after("queue_full_blocked"));
-        if q > self.cap {
+        // (C09 quantifies over capacities ≥ 1; with the legal capacity 0 every plain send "truncates" an empty queue
+        // and keeps its item, so one item is pending)
+        if q > self.cap.max(1) {
             self.or.fail("c09-capacity");
         }
         out.push_str(&format!("|{}/{}/{}", q, t, b));
@@ -1470,6 +1471,7 @@ fn pick_bk(rng: &mut Rng) -> Bk {
 /// receiver-side ops are then drawn without knowing which gate is outstanding.
 fn gen_one(rng: &mut Rng, tier: Tier, interpret: bool, partial: &Mutex<Partial>) -> String {
     let cap = match rng.below(10) {
+        0 if rng.chance(1, 4) => 0,
         0 => 1,
         1 => 2,
         2..=5 => rng.range(2, 4) as usize,
